@@ -66,7 +66,16 @@ func (e *Env) G()                      { e.Evs = append(e.Evs, "G") }
 func (e *Env) K(i int) string          { e.Evs = append(e.Evs, fmt.Sprintf("K%d", i)); return fmt.Sprintf("cls%d", i) }
 func (e *Env) M(i int) templ.Attributes {
 	e.Evs = append(e.Evs, fmt.Sprintf("M%d", i))
-	return templ.Attributes{fmt.Sprintf("data-M%d", i): "M1&v"}
+	if i == 1 {
+		return templ.Attributes{"data-M1": "M1&v"}
+	}
+	// one entry of every value kind RenderAttributes distinguishes, present and absent forms
+	s, t, f := "M1&v", true, false
+	return templ.Attributes{
+		"a-str": "M1&v", "b-ptrstr": &s, "c-true": true, "d-false": false, "e-ptrtrue": &t, "f-ptrfalse": &f,
+		"g-kvs": templ.KV("M1&v", true), "h-kvsf": templ.KV("M1&v", false), "i-kvb": templ.KV(true, true), "j-kvbf": templ.KV(true, false),
+		"k-nilstr": (*string)(nil), "l-nilbool": (*bool)(nil), "m-fn": func() bool { return true }, "n-fnf": func() bool { return false },
+	}
 }
 
 type entry struct {
@@ -486,7 +495,7 @@ func evalSignature(prog []templang.Node) string {
 			for _, a := range n.Attrs {
 				if a.A == "cond" {
 					for _, t := range append(append([]templang.Attr{}, a.Then...), a.Else...) {
-						if t.A == "class" {
+						if t.A == "class" || t.A == "class2" {
 							found = true
 						}
 					}
